@@ -442,7 +442,7 @@ def run(prog, ctx):
             ctx.check(ok, "C20.D4", R.key_of(fi, "normalised#%d" % k), fi.loc(s.stmt),
                       "stored coefficient is an entry divided by the sum of all entries (%s)" % why,
                       "`%s` stores a coefficient that is not an entry divided by the sum of all entries: %s" % (src(s.stmt), why))
-    ctx.floor("C20.D4", n4, 6, "coefficient stores in optimize_coefficients_* variants")
+    ctx.floor("C20.D4", n4, 3, "coefficient stores in optimize_coefficients_* variants")
 
 
 def _symmetrised(fi):
